@@ -769,12 +769,21 @@ S_VARIANTS = [
     ("harm_move+hist", ctl.cv_d1() + ctl.cv_d2() + "harmonic {\n colvars d1\n centers 3.0\n targetCenters 7.0\n targetNumSteps 16\n"
      " forceConstant 4.0\n outputAccumulatedWork on\n}\nhistogram {\n colvars d1 d2\n}\n", "off"),
 ]
+S_VARIANTS.append(
+    ("indexed", "indexFile idx_a.ndx\ncolvar {\n  name d1\n  width 0.5\n  distance {\n    group1 { indexGroup ga }\n    group2 { indexGroup gb }\n  }\n}\n"
+                + ctl.cv_d2() + "harmonic {\n colvars d1\n centers 4.0\n forceConstant 3.0\n}\n"
+                "harmonicWalls {\n colvars d2\n lowerWalls -1.0\n upperWalls 1.0\n forceConstant 5.0\n}\n", "off"))
+INDEX_FILES = {"idx_a.ndx": "[ ga ]\n1\n[ gb ]\n2\n[ gc ]\n13 14 15\n", "idx_b.ndx": "[ gc ]\n13 14 16\n[ gd ]\n17 18\n"}
+V_LATER_INDEXED = ("colvar {\n  name v9\n  distance {\n    group1 { indexGroup gc }\n    group2 { atomNumbers 15 16 }\n  }\n}\n"
+                   "harmonic {\n  name hv9\n  colvars v9\n  centers 1.0\n  forceConstant 0.5\n}\n")
 S_N1, S_N2 = 4, 10
 V_LATER = ("colvar {\n  name v9\n  distance {\n    group1 { atomNumbers 13 14 }\n    group2 { atomNumbers 15 16 }\n  }\n}\n"
            "harmonic {\n  name hv9\n  colvars v9\n  centers 1.0\n  forceConstant 0.5\n}\n")
 # rejected configurations that read the deprecated wall keywords of a colvar (which queue an automatically generated
 # harmonicWalls block inside the module) before failing
 LEGACY_RS = [
+    # an index file that gives an already defined group other atoms: rejected, and the groups defined so far stay usable
+    ("index_group.redefined", "indexFile idx_b.ndx\n"),
     ("legacy_walls.misspelt_keyword", "colvar {\n  name rj1\n  lowerWall 1.0\n  upperWall 5.0\n  lowerWallConstant 2.0\n  upperWallConstant 2.0\n  noSuchKeyword 1\n"
      "  distance {\n    group1 { atomNumbers 17 }\n    group2 { atomNumbers 18 }\n  }\n}\n"),
     ("legacy_walls.no_component", "colvar {\n  name rj1\n  lowerWall 1.0\n  upperWall 5.0\n  lowerWallConstant 2.0\n  upperWallConstant 2.0\n}\n"),
@@ -823,12 +832,16 @@ def interleave_legacy(Rs):
     for lab, R in LEGACY_RS:
         for vi in range(len(S_VARIANTS)):
             out.append(("%s@%d" % (lab, vi), R, "rejected_init"))
-    # len(out) is a multiple of len(S_VARIANTS): job i runs with S_VARIANTS[i % 3]
+    # len(out) is a multiple of len(S_VARIANTS): job i runs with S_VARIANTS[i % len(S_VARIANTS)]
     return out + gen
 
 
 def survivor_scn(variant, sysm, steps, R, wd):
     name, cfg, tfm = variant
+    os.makedirs(wd, exist_ok=True)
+    for fn, txt in INDEX_FILES.items():
+        with open(os.path.join(wd, fn), "w") as fh:
+            fh.write(txt)
     s = header24(sysm, tfm) + "module\nprefix %s\nconfig <<EOC\n%sEOC\ninit\nflush\n" % (os.path.join(wd, "out"), cfg)
     for t in range(S_N1 + 1):
         s += steps[t]
@@ -840,7 +853,7 @@ def survivor_scn(variant, sysm, steps, R, wd):
         s += steps[t] + "flush\n"
         if t == S_N1 + 2:
             # "the module stays usable": a later, valid configuration (in the control too) is accepted and works
-            s += "clearerr\nscript %s\nflush\n" % json.dumps(["cv", "config", V_LATER])
+            s += "clearerr\nscript %s\nflush\n" % json.dumps(["cv", "config", V_LATER_INDEXED if name == "indexed" else V_LATER])
     s += 'clearerr\nscript ["cv","list"]\nscript ["cv","list","biases"]\nsavestr\nflush\n'
     return s
 
